@@ -160,6 +160,26 @@ Definition flag_at (m : amatrix) (j r : nat) : bool :=
 Definition flags (m : amatrix) (n R : nat) : list (list bool) :=
   match m with Some m => m | None => repeat (repeat true R) n end.
 
+(* ---- EvaluatorContext.__post_init__: the aggregate per-realization flag `active` ----------------- *)
+(* np.logical_or of two vectors *)
+Definition vor (a b : list bool) : list bool := map (fun p : bool * bool => fst p || snd p) (combine a b).
+(* np.logical_or.reduce(m, axis=0) of an (n, R) matrix *)
+Definition or_reduce (R : nat) (m : list (list bool)) : list bool := fold_right vor (repeat false R) m.
+(* a matrix that is None does not take part (the code does NOT read None as "everything active" here) *)
+Definition aggregate_active (R : nat) (ao ac : amatrix) : option (list bool) :=
+  match ao, ac with
+  | None, None => None
+  | Some o, None => Some (or_reduce R o)
+  | None, Some c => Some (or_reduce R c)
+  | Some o, Some c => Some (vor (or_reduce R o) (or_reduce R c))
+  end.
+Definition agg_at (a : option (list bool)) (r : nat) : bool := match a with None => true | Some l => nth r l true end.
+Definition agg_flags (a : option (list bool)) (R : nat) : list bool := match a with Some l => l | None => repeat true R end.
+(* the specification of the aggregate: realization r has to be evaluated iff some (function, r) or
+   (constraint, r) entry is active, a None matrix standing for "all entries active" *)
+Definition agg_spec (R nobj ncon : nat) (ao ac : amatrix) : list bool :=
+  map (fun r => existsb (fun row : list bool => nth r row false) (flags ao nobj R ++ flags ac ncon R)) (seq 0 R).
+
 (* ---- cache decision of EnsembleEvaluator.calculate --------------------------------------------- *)
 (* the cached function result: its variables and its weights in force *)
 Definition cache := option (vec * option wmatrix * option wmatrix).
